@@ -15,7 +15,15 @@ C09_GEN_CFG = "users=3,stake=40," + BASE                     # GEN_Token.cfg
 REG = ",regin=maa,regout=mbb,regrn=3,regrd=2"
 BASE_IBC = "minunits=maa:mbb:ibc/x1,ibc=3,basefee=5,taxnum=2,taxden=5,mintnum=1,mintden=2"
 C10_MC_CFG = "users=2,quirks=1,stake=9," + BASE_IBC + REG    # MC_TokenErc.cfg, MC_TokenLife.cfg (+ math rows: no chain)
-C10_GEN_CFG = "users=2,quirks=1,stake=40," + BASE_IBC + REG  # GEN_TokenErc.cfg
+# GEN_TokenErc.cfg; kscale=auto: EXACT SCALING of every IBC-denom quantity (balances, supply, ERC20 ledger,
+# conversion amounts) by a factor K cycling through harness/cmd/token kScales (2^30+3 .. 2^126+5): the
+# unchanged Token.tla and all C10 clauses judge real conversions whose amounts and sums straddle 2^31,
+# 2^32, 2^53, 2^63, 2^64, 2^128
+C10_GEN_CFG = ("users=2,quirks=1,stake=40,minunits=maa:mbb:ibc/x1,ibc=20,kscale=auto,basefee=5,taxnum=2,taxden=5,"
+               "mintnum=1,mintden=2" + REG)
+KSCALES = ["1073741827", "4503599627370497", "2305843009213693953", "4611686018427387904", "3074457345618258603",
+           "6148914691236517205", "1000000000000000007", "9223372036854775807", "18446744073709551629",
+           "79228162514264337593543950343", "85070591730234615865843651857942052869"]
 
 # random histories draw their own configuration (tax, ratios, swap ratio, fees);
 # every history mixes all message types, the pure function included
@@ -51,6 +59,10 @@ C10_SCN = [dict(file="scenarios/token_F6.ndjson", cfg="users=3,stake=40," + BASE
                 cfg="users=3,quirks=1,stake=200,minunits=maa:mbb:mcc:ibc/x1,ibc=5,basefee=60,taxnum=2,taxden=5,mintnum=1,mintden=2"),
            dict(file="scenarios/token_cover_swap.ndjson",
                 cfg="users=3,stake=40," + BASE + ",regin=maa,regout=mbb,regrn=1,regrd=2"),
+           # conversions at magnitude (exact scaling): the same scripted history at every factor K
+           ] + [dict(file="scenarios/token_erc_scale.ndjson",
+                     cfg="users=2,quirks=1,stake=40,minunits=maa:mbb:ibc/x1,ibc=20,basefee=5,taxnum=2,taxden=5,"
+                         "mintnum=1,mintden=2,kscale=" + k) for k in KSCALES] + [
            # one name as symbol of one token and min unit of another: conversions, the hook
            # and the burned side of the fee swap must resolve by min unit
            dict(file="scenarios/token_namespace_erc.ndjson",
